@@ -422,7 +422,7 @@ class DataPack:
             and json_type.endswith("s")
         ):
             json_type = json_type[:-1]
-        self.jsons[f"{json_type}/{self.private_name}/{name}"] = json
+        self.__add_json(f"{json_type}/{self.private_name}/{name}", json)
 
     def add_json(
         self, json_type: str, name: str, json: dict[str, Any] | list[Any]
@@ -434,7 +434,20 @@ class DataPack:
         :param name: Name of the json
         :param json: Dictionary object
         """
-        self.jsons[f"{json_type}/{name}"] = json
+        self.__add_json(f"{json_type}/{name}", json)
+
+    def __add_json(self, json_path: str, json: dict[str, Any] | list[Any]) -> None:
+        """
+        Insert a generated json, refusing to replace a different json of the same path
+
+        :param json_path: Key in self.jsons
+        :param json: Dictionary object
+        """
+        if json_path in self.jsons and self.jsons[json_path] != json:
+            raise JMCBuildError(
+                f"Duplicate JSON({json_path}): a different JSON file of that path was already defined"
+            )
+        self.jsons[json_path] = json
 
     def add_arrow_function(
         self,
